@@ -9,7 +9,8 @@ LEVEL = 'exploration'
 RULE = ('case = (programs of 2-3 threads, each 1-2 pformat calls on: an instance of a class whose printer is registered by '
         'name and not yet promoted (fresh class and key per case, so the first use happens in every schedule), an instance '
         'of a subclass of such a class, of a directly registered class, of an unregistered class, of a fresh struct-sequence '
-        'look-alike (field names resolved and cached on first print), lists/dicts holding them; '
+        'look-alike (field names resolved and cached on first print), lists/dicts holding them, optionally with per-call width / '
+        'ribbon settings that differ between the threads; '
         'schedule = list of (thread, number of package lines to run)). A deterministic scheduler built on sys.settrace '
         'pre-empts threads only at line boundaries inside the package; exactly one thread runs at a time. Exhaustive: ALL '
         'one-preemption schedules (thread A runs k lines, B runs to completion, A finishes; every k) for every ordered '
@@ -23,12 +24,14 @@ ASSUMPTIONS = ['interleavings are explored at package-line granularity under the
                'a controller timeout is a harness error (exit 2), never a violation']
 BUDGET = {'quick': {'random': 1600, 'shards': 16}, 'thorough': {'random': 60000, 'shards': 16}}
 
-KINDS = ['lazy', 'sub', 'direct', 'unreg', 'list-lazy', 'list-sub', 'dict-lazy', 'lazy2', 'subsub', 'seq', 'list-seq']
+KINDS = ['lazy', 'sub', 'direct', 'unreg', 'list-lazy', 'list-sub', 'dict-lazy', 'lazy2', 'subsub', 'seq', 'list-seq',
+         'list-direct@12', 'list-lazy@9', 'list-sub@25', 'dict-lazy@7', 'list-direct@60']
 PAIRS = [
     (['lazy'], ['lazy']), (['list-lazy'], ['list-lazy']), (['sub'], ['lazy']), (['lazy'], ['sub']), (['sub'], ['sub']),
     (['list-sub'], ['list-lazy']), (['dict-lazy'], ['list-sub']), (['lazy', 'lazy'], ['sub']), (['subsub'], ['sub']),
     (['lazy'], ['lazy2']), (['direct'], ['lazy']), (['unreg'], ['list-lazy']), (['lazy'], ['unreg']),
     (['seq'], ['seq']), (['list-seq'], ['seq']), (['seq', 'lazy'], ['list-seq']),
+    (['list-direct@12'], ['list-direct@40']), (['list-lazy@9', 'list-lazy@30'], ['list-sub@20']), (['dict-lazy@7'], ['list-seq@60']),
 ]
 _uid = itertools.count()
 _cache = {}
@@ -79,8 +82,13 @@ def make_programs(progs, fam):
     for prog in progs:
         calls = []
         for kind in prog:
+            # 'kind@W' prints with width=W, ribbon_width=W-3: threads using different settings
+            kind, _, w = kind.partition('@')
             v = make_value(kind, fam)
-            calls.append(lambda v=v: pformat(v))
+            if w:
+                calls.append(lambda v=v, w=int(w): pformat(v, width=w, ribbon_width=max(1, w - 3)))
+            else:
+                calls.append(lambda v=v: pformat(v))
         out.append(calls)
     return out
 
